@@ -220,7 +220,8 @@ class C02(HistoryCampaign):
         "drivers": ["Canonical", "HamiltonianCanonical", "Isobaric", "Isobaric", "Isotension", "Isotension",
                     "GrandCanonical", "GrandCanonical"],
         "calc_styles": ["caching", "stateless"],
-        "scales": ["moderate", "extreme", "extreme"], "constraints": 0.1, "arrays": 0.2, "composites": 0.2, "extended": 0.1,
+        "scales": ["moderate", "extreme", "extreme"], "constraints": 0.2, "arrays": 0.2, "composites": 0.2, "extended": 0.1,
+        "constraint_kinds": ["fixatoms", "fixcom", "fixatoms+fixcom", "hookean", "hookean", "hookean"],
         "p_force": [0.0, 0.0, 0.3], "p_veto": [0.0, 0.1, 0.3], "preselect": 0.1, "steps_max": 10, "param_tape": 0.4,
         "exch_composites": True, "triclinic": 0.6, "accessible_volume": 0.4,
     }
